@@ -26,7 +26,8 @@ def specs(rng, tier, count):
         mode = i % 3
         spec = KC.gen_spec(rng, variant=v, geo=g, dim=dim, tier=tier, exact=(mode == 2),
                            nugget=(0.0 if mode < 2 else float(np.round(rng.uniform(0.05, 0.5), 3))),
-                           norm_prob=0.5, mean_nonzero=(v == "Simple" and i % 2 == 0), geom_mode=gm, drift_mode=(j + 3), norm_class=KC.NORM_CLASSES[i % 6],
+                           norm_prob=0.5, mean_nonzero=(v == "Simple" and i % 2 == 0), geom_mode=gm, drift_mode=(j + 3), norm_class=KC.NORM_CLASSES[i % 6], classes=(KC.TPL_CLASSES if i % 5 == 4 else None),
+                           n_eq_dim=(i % 11 == 5 and v in ("Simple", "Ordinary", "Detrended")),
                            var_scale=([1e-10, 1e8, 1e-13][(i // 7) % 3] if i % 7 == 3 else None))
         if mode < 2:
             spec["cond_err"] = "nugget" if mode == 0 else 0.0
@@ -117,6 +118,9 @@ def run(ctx, only=None):
             for r_ in range(1 if ctx.tier == "quick" else 6):
                 for v_ in ("Simple", "Ordinary", "Universal"):
                     KC.probe_single_targets(ctx, drv, KC.gen_utm(rng, v_), stats)
+            # cross-object interference (incl. duplicated points with the default pseudo-inverse routines after custom ones)
+            for r_ in range(1 if ctx.tier == "quick" else 3):
+                KC.probe_interference(ctx, rng, stats, ctx.tier)
             # replicated measurements per location
             # (10 x 25 = 250 rows already separates scipy's cut-off max(M,N)*eps from a fixed 1e-15: measured deviation
             #  1e-9 of the threshold with scipy.linalg.pinv, 1e4 times the threshold with numpy.linalg.pinv)
